@@ -211,7 +211,12 @@ fn judge_real(ctx: &mut Ctx, c: &CaseIn, parts: &[Vec<usize>], out: &Out, specs:
     let srs = if no_segments { &specs.absent } else { &specs.base };
     let v = match out {
         Out::Ok(v) => v,
-        Out::Err(e) => { ctx.report.violation("oracle", "C14:valid-request-rejected", format!("{how}: a valid request failed: {e}"), case_json(c, parts, "final")); return None; }
+        Out::Err(e) => {
+            let absent = e.contains("Overlapping ranges") && range_absent_column_signature(c.nodes, c.docs, parts);
+            ctx.report.violation("oracle", if absent { "C14:metric-missing-cast-to-u64-in-segment-without-column" } else { "C14:valid-request-rejected" },
+                format!("{how}: a valid request failed: {e}{}", if absent { " — negative range bounds collapse to 0 on the u64-typed substitute of an absent column" } else { "" }), case_json(c, parts, "final"));
+            return None;
+        }
         Out::Panic(msg) => {
             let dup = msg.contains("fetch_block requires docs sorted") && specs.alts[0] != specs.base;
             ctx.report.violation("oracle", if dup { "C14:histogram-range-doc-count-counts-values" } else { "C14:panic" },
@@ -409,7 +414,8 @@ pub fn check_request(ctx: &mut Ctx, rng: &mut Rng, corpus: &Corpus, nodes: &[Nod
     }
     if let Some(e) = fruit_err {
         let dup = e.contains("fetch_block requires docs sorted") && specs.alts[0] != specs.base;
-        ctx.report.violation("oracle", if dup { "C14:histogram-range-doc-count-counts-values" } else { "C14:valid-request-rejected" }, format!("DistributedAggregationCollector failed: {e}"), case_json(&c, sparts, "distributed"));
+        let absent = e.contains("Overlapping ranges") && range_absent_column_signature(nodes, &corpus.docs, sparts);
+        ctx.report.violation("oracle", if dup { "C14:histogram-range-doc-count-counts-values" } else if absent { "C14:metric-missing-cast-to-u64-in-segment-without-column" } else { "C14:valid-request-rejected" }, format!("DistributedAggregationCollector failed: {e}"), case_json(&c, sparts, "distributed"));
     } else {
         for round in 0..3 {
             let serialise = round > 0;
@@ -438,6 +444,7 @@ pub fn check_request(ctx: &mut Ctx, rng: &mut Rng, corpus: &Corpus, nodes: &[Nod
         for (i, other) in normed.iter().enumerate() {
             if let Err(e) = same_result(&first, other) {
                 let key = if any_metric_missing_signature(nodes, &corpus.docs, &finals[i + 1].2) || any_metric_missing_signature(nodes, &corpus.docs, &finals[0].2) { "C14:metric-missing-cast-to-u64-in-segment-without-column" }
+                    else if specs.alts[0] != specs.base { "C14:histogram-range-doc-count-counts-values" }
                     else if has_count_ordered_terms(nodes) && e.contains("buckets") && !no_count_cut(&specs.base) { "C14:terms-count-ties-partition-dependent" } else { "C14:result-depends-on-partition" };
                 ctx.report.violation("oracle", key, format!("same documents, {} vs {}: {e}", finals[0].0, finals[i + 1].0), case_json(&c, &finals[i + 1].2, "partition"));
                 break;
@@ -476,6 +483,7 @@ pub fn check_limits(ctx: &mut Ctx, rng: &mut Rng, corpus: &Corpus, nodes: &[Node
     let matching: Vec<&MDoc> = corpus.docs.iter().filter(|d| q.matches(d)).collect();
     let at = all_terms_fn(&corpus.docs);
     let srs = spec_eval(nodes, &matching, &at, Sem { per_value: false, rendered_key_order: false }, false);
+    let srs_pv = spec_eval(nodes, &matching, &at, Sem { per_value: true, rendered_key_order: false }, false);
     let nb = count_cr_buckets(&full_cr);
     let limits: Vec<u32> = vec![0, 1, nb.saturating_sub(1) as u32, nb as u32, nb as u32 + 1, rng.below(nb + 2) as u32];
     for l in limits {
@@ -499,13 +507,16 @@ pub fn check_limits(ctx: &mut Ctx, rng: &mut Rng, corpus: &Corpus, nodes: &[Node
         }
         // the Lean guard model agrees on ok / err
         let ranks = Ranks::new(&corpus.docs, nodes);
-        if lean_modelled(nodes) && !spec_has_ties_or_trunc(nodes, &corpus.docs, parts, q) {
+        let one_part: Vec<Vec<usize>> = vec![(0..corpus.docs.len()).collect()];
+        if lean_modelled(nodes) && srs == srs_pv && !spec_has_ties_or_trunc(nodes, &corpus.docs, parts, q) && !spec_has_ties_or_trunc(nodes, &corpus.docs, &one_part, q) {
             let mparts: Vec<Vec<usize>> = vec![(0..corpus.docs.len()).filter(|&i| q.matches(&corpus.docs[i])).collect()];
             let m = ctx.model.ask(&format!("C14 limit {l} {} {}", nodes_to_lean(nodes, true, &ranks), parts_to_lean(&corpus.docs, &mparts, &ranks)));
             let model_err = m.starts_with("err");
             let real_err = matches!(out, Out::Err(_));
+            // the model reports an uninstantiated range with all its (empty) buckets: compare
+            // only when both conventions give the same number of buckets
             let spec_nb = bucket_count(&srs);
-            if spec_nb == nb && model_err != real_err {
+            if spec_nb == nb && super::spec::bucket_count_all(&srs) == nb && model_err != real_err {
                 ctx.report.violation("model", "C14:lean-limit-guard-differs", format!("bucket limit {l}: lean {} vs real {:?}", &m[..m.len().min(80)], real_err), case_json(&c, parts, "limit"));
             }
         }
@@ -643,6 +654,22 @@ fn shrink_violations(ctx: &mut Ctx) {
     }
 }
 
+/// no histogram of the request spans more than 3000 positions over the corpus values and bounds
+fn hist_width_ok(nodes: &[Node], docs: &[MDoc]) -> bool {
+    nodes.iter().all(|n| {
+        let ok = match &n.agg {
+            Agg::Hist { field, interval, ext, mdc, .. } if mdc.unwrap_or(0) == 0 => {
+                let mut lo = docs.iter().flat_map(|d| d[field.id()].iter().cloned()).min();
+                let mut hi = docs.iter().flat_map(|d| d[field.id()].iter().cloned()).max();
+                if let Some((a, b)) = ext { lo = Some(lo.map(|x| x.min(*a)).unwrap_or(*a)); hi = Some(hi.map(|x| x.max(*b)).unwrap_or(*b)); }
+                match (lo, hi) { (Some(lo), Some(hi)) => (hi - lo) / interval <= 3000, _ => true }
+            }
+            _ => true,
+        };
+        ok && hist_width_ok(&n.subs, docs)
+    })
+}
+
 fn gen_query(rng: &mut Rng) -> Q {
     match rng.below(4) { 0 | 1 => Q::All, 2 => Q::Sel(rng.below(3)), _ => Q::Cat(rng.below(5) as i64) }
 }
@@ -695,8 +722,18 @@ pub fn run(ctx: &mut Ctx) {
         for ri in 0..reqs_per {
             let mut counter = 0;
             let max_depth = 1 + rng.usize_below(3);
-            let nodes = gen_nodes(&mut rng, 0, max_depth, &mut counter);
+            let mut nodes = gen_nodes(&mut rng, 0, max_depth, &mut counter);
             let q = gen_query(&mut rng);
+            // keep results small: regenerate requests with more than 3000 buckets
+            for _ in 0..20 {
+                let matching: Vec<&MDoc> = corpus.docs.iter().filter(|d| q.matches(d)).collect();
+                let at = all_terms_fn(&corpus.docs);
+                if hist_width_ok(&nodes, &corpus.docs) && super::spec::bucket_count_all(&spec_eval(&nodes, &matching, &at, Sem { per_value: true, rendered_key_order: false }, false)) <= 3000 { break; }
+                ctx.report.count("gen:request-too-large-regenerated");
+                counter = 0;
+                let md = 1 + rng.usize_below(3);
+                nodes = gen_nodes(&mut rng, 0, md, &mut counter);
+            }
             check_request(ctx, &mut rng, &corpus, &nodes, q);
             if ri % 3 == 0 { check_limits(ctx, &mut rng, &corpus, &nodes, q); }
         }
